@@ -11,6 +11,8 @@ MANIFEST_ENTRY = {
     "note": "Exhaustive below the bound, sampled above it; nothing here is counted as proved. LIT files have no verify cap and are, by design, reported once per link.",
     "technique": "bounded exhaustive run-time contract checking of the real function (stand-in for deductive verification, labelled bounded)",
 }
+MANIFEST_ENTRY["text"] += " Bounded end-to-end stand-in (run-time contract, never counted as proved): contracts/grid_dirnode.py drives real DirectoryNodes on real StorageServers through seeded histories of edits over 3..6 directories with NFC-colliding names, compares every listing (same client, fresh client with write cap, fresh client with read cap) with a name-map model and checks build_manifest/deep-stats against the model's graph."
+MANIFEST_ENTRY["technique"] += "; plus bounded end-to-end run-time scenario contracts on an in-process grid of the real components (stand-in, labelled bounded)"
 EXPLANATION = "Exhaustive enumeration of small directory graphs against a reachability oracle."
 TRUSTED = ["the reachability oracle in this file"]
 ASSUMPTIONS = []
